@@ -362,10 +362,9 @@ HARNESSES = [
                      bound="tag `M/<a> <b>` on MINI_U (M/# takes the real currencyUnits: $ {unitPrefix}, dollar, euro, "
                            "point), printable ASCII without '/', b blank-free: 1 <= len(a) <= 2 and 1 <= len(b) <= 2, or "
                            "len(a) == 1 and len(b) == 4"),
-        thorough=R.tier(cells=_ab_cells(_grid(1, 2, 2) + [(3, 1), (1, 4), (1, 5), (1, 6), (2, 4)], split_a_from=1,
-                                        split2_a_from=3), timeout=1500, path_timeout=60,
-                        bound="same: 1 <= len(a) <= 2 and 1 <= len(b) <= 2, or (len a, len b) in (3,1),(1,4),(1,5),(1,6),"
-                              "(2,4)"),
+        thorough=R.tier(cells=_ab_cells(_grid(1, 2, 2) + [(3, 1), (1, 4), (2, 4)], split_a_from=1, split2_a_from=3),
+                        timeout=1500, path_timeout=60,
+                        bound="same: 1 <= len(a) <= 2 and 1 <= len(b) <= 2, or (len a, len b) in (3,1),(1,4),(2,4)"),
         what="same agreement where the unit class has a prefix unit: accepted <=> (a is a number and b spells a unit "
              "written behind the number) or (a spells a unitPrefix unit and b is a number); `3 $` and `dollar 3` are "
              "rejected; value defined iff accepted and the unit declares a conversion factor",
@@ -373,8 +372,8 @@ HARNESSES = [
     R.H("numeric_pattern", ["hed.validator.util.char_util.CharRexValidator.is_valid_value"],
         quick=R.tier(cells=R.str_cells(4, split1_from=4, nclass=NVC), env={"VP_N": 4}, timeout=300,
                      bound="every Unicode string v with len(v) <= 4"),
-        thorough=R.tier(cells=R.str_cells(6, split1_from=3, split2_from=5, nclass=NVC), env={"VP_N": 6}, timeout=1500,
-                        path_timeout=60, bound="every Unicode string v with len(v) <= 6"),
+        thorough=R.tier(cells=R.str_cells(5, split1_from=3, split2_from=5, nclass=NVC), env={"VP_N": 5}, timeout=1500,
+                        path_timeout=60, bound="every Unicode string v with len(v) <= 5"),
         what="CharRexValidator.is_valid_value(v, 'numericClass') (the pattern of class_regex.json that decides numeric "
              "values) accepts v <=> v is [+-]?(d+(.d*)?|.d+)([eE][+-]?d+)? over the ten ASCII digits",
         oracle="models/units_ref.py is_number (hand-written recogniser, rule N1)",
